@@ -50,6 +50,12 @@ class Collector:
         self.obs: List[Ob] = []
         self.info: Dict[str, Any] = {}
         self.floors: Dict[str, int] = {}
+        self.deferred: List[str] = []
+
+    def defer(self, msg: str):
+        """A rule cannot be decided on this tree's shape (unrecognised refactoring). Reported as ANALYSIS-ERROR
+        (exit 2) unless another rule reports a violation, in which case the violation stands."""
+        self.deferred.append(msg)
 
     def add(self, rule, construct, detail, ok, msg="", loc=""):
         self.obs.append(Ob(rule, construct, detail, bool(ok), msg, loc))
@@ -118,9 +124,9 @@ def run_property(prop: str, tier: str, fn: Callable[[Collector, str], None], exp
     seed = int(os.environ.get("VERIF_SEED", "0") or 0)
     ev_path = EVIDENCE_DIR / f"{prop}.json"
     col = Collector(prop)
+    floor_error = None
     try:
         fn(col, tier)
-        counts = col.check_floors()
     except AnalysisError as e:
         print(f"ANALYSIS-ERROR property={prop} {e}")
         return 2
@@ -128,6 +134,17 @@ def run_property(prop: str, tier: str, fn: Callable[[Collector, str], None], exp
         print(f"ANALYSIS-ERROR property={prop} internal error in checker:")
         traceback.print_exc(file=sys.stdout)
         return 2
+    try:
+        if col.deferred:
+            raise AnalysisError("; ".join(col.deferred))
+        counts = col.check_floors()
+    except AnalysisError as e:
+        # a rule matched fewer instances than confirmed by hand. If other rules already report a violation the
+        # verdict on the tree stands (never masked); otherwise the run is analysis-broken, not a pass.
+        floor_error = str(e)
+        counts = {}
+        for o in col.obs:
+            counts[o.rule] = counts.get(o.rule, 0) + 1
 
     known = [k for k in load_known() if k.prop == prop]
     known_keys = {k.key: k for k in known}
@@ -150,6 +167,11 @@ def run_property(prop: str, tier: str, fn: Callable[[Collector, str], None], exp
 
     selftest_info: Dict[str, Any] = {}
     rc = 0
+    if floor_error and not unlisted:
+        print(f"ANALYSIS-ERROR property={prop} {floor_error}")
+        return 2
+    if floor_error:
+        print(f"  note: {floor_error}")
     if unlisted:
         rc = 1
         vio_path = EVIDENCE_DIR / f"{prop}.violation.json"
